@@ -91,10 +91,16 @@ Definition usort {A} (ltb : A -> A -> bool) (l : list A) : list A := fold_right 
 Record emeta := { m_dir : bool; m_size : option N; m_exec : bool }.
 Record entry := { e_meta : option emeta; e_hash : option oid; e_loaded : bool }.
 Record lrow := { r_key : key; r_hash : oid; r_size : option N; r_exec : bool }.
+(* one object store: the directory objects it can load (present and parseable) and its file objects *)
+Record store := {
+  s_dirs : list (oid * list lrow);
+  s_blobs : list (oid * list N) }.
+(* the storage map: one StorageInfo at prefix v_sp with up to three roles, each an ObjectStorage *)
 Record env := {
-  v_sp : option key;                       (* prefix of the ObjectStorage; None: no storage *)
-  v_dirs : list (oid * list lrow);         (* loadable directory objects *)
-  v_blobs : list (oid * list N) }.         (* file objects *)
+  v_sp : option key;                       (* None: no storage registered *)
+  v_data : option store;
+  v_cache : option store;
+  v_remote : option store }.
 
 Definition idx := list (key * entry).
 
@@ -143,12 +149,27 @@ Definition under_sp (E : env) (k : key) : bool :=
 Definition loadable (E : env) (x : key * entry) : bool :=
   negb (e_loaded (snd x)) && isdir_raw (snd x) && under_sp E (fst x).
 
-(* _load_from_object_storage: needs a .dir hash and Tree.load to succeed *)
+(* the first role, in the given order, that is registered and answers *)
+Fixpoint first_some {A B} (f : A -> option B) (l : list (option A)) : option B :=
+  match l with
+  | [] => None
+  | None :: r => first_some f r
+  | Some a :: r => match f a with Some b => Some b | None => first_some f r end
+  end.
+(* _load_from_storage tries data, cache, remote; DataFileSystem._get_fs_path tries cache, remote, data *)
+Definition roles_load (E : env) : list (option store) := [v_data E; v_cache E; v_remote E].
+Definition roles_read (E : env) : list (option store) := [v_cache E; v_remote E; v_data E].
+
+(* _load_from_storage / _load_from_object_storage: needs a .dir hash and Tree.load to succeed in
+   one of the storages; a storage where it fails (object absent or unparsable) is skipped *)
 Definition listing_of (E : env) (e : entry) : option (list lrow) :=
   match e_hash e with
-  | Some h => if hi_isdir (Some h) then assoc (v_dirs E) h else None
+  | Some h => if hi_isdir (Some h) then first_some (fun st => assoc (s_dirs st) h) (roles_load E) else None
   | None => None
   end.
+(* _get_fs_path: the first storage whose file system has the object *)
+Definition blob_of (E : env) (h : oid) : option (list N) :=
+  first_some (fun st => assoc (s_blobs st) h) (roles_read E).
 
 Definition file_entry (r : lrow) : entry :=
   {| e_meta := Some {| m_dir := false; m_size := r_size r; m_exec := r_exec r |};
@@ -344,7 +365,7 @@ Definition fs_read_step (E : env) (i : idx) (p : list N) : idx * res (list N) :=
            if isdir_raw (norm e) then Err E_ISDIR
            else if under_sp E k && hi_truthy (e_hash e) then
                   match e_hash e with
-                  | Some h => match assoc (v_blobs E) h with Some b => Ok b | None => Err E_NOTFOUND end
+                  | Some h => match blob_of E h with Some b => Ok b | None => Err E_NOTFOUND end
                   | None => Err E_NOTFOUND
                   end
                 else Err E_NOTFOUND
